@@ -32,6 +32,28 @@ decisions taken here are Python's static ones:
   * `@staticmethod`s of a class listed in `STATIC_METHODS` are dumped as plain functions; `OrderedDict()` (imported once from
     `collections`, not rebound) is `Expr.newDict` (a dict keeps insertion order); `x.append(v)` / `x.remove(v)` as an
     expression statement on a local variable is `Stmt.varCall`, `x[k] = v` on a local variable is `Stmt.setItemVar`.
+  * methods of a `list` subclass with fields (`LIST_CLASSES`: `Tags.TagCollection`) are dumped in the order given there, which
+    must be a dependency order: a method may refer (`self.m(args)` as a statement, the bound method `x.m` as a value, the
+    constructor `TagCollection(args)` = `__init__`) only to methods EARLIER in that order (`Ctx.meths`: no recursion).  The bare
+    `self` may occur only as `list.m(self, args)` (a statement: `Stmt.baseCall`, the list the object IS), `self[:]`
+    (`Expr.sliceAll`), `list(self)` and `return self`; `x.m` for a local `x` and a method `m` of the class is the bound method
+    (`Expr.boundMeth`: it names the variable, which must be bound once, before); `x.m(args)` as an expression statement for a
+    method `m` of the class or a mutator is `Stmt.varCall` (the interpreter dispatches on what `x` holds); `set()` is
+    `Expr.newSet`.  Checked on the way: the class has `list` as its only base and defines none of `__getitem__ __iter__ __len__
+    __contains__ __getattr__ __getattribute__ __setattr__` (so that `self[:]`, `list(self)`, `self.f = v` are the builtin ones);
+    `AdvancedTag.getUid` is `return self.uid` and `AdvancedTag.__eq__` compares the uids (`ELEMENT_METHODS`): the interpreter takes
+    an element to be its uid.  Module-level functions that build such an object (`uniqueTags`) are dumped after the class.
+  * methods of a class whose dot access is overridden (`ATTR_CLASSES`: `SpecialAttributes.StyleAttribute`): `self.f` is the
+    plain attribute only for the names in the class constant `RESERVED_ATTRIBUTES` (`__getattribute__` / `__setattr__` hand
+    those to `object`): every `self.f` of a dumped method must be one of them.  `x = self.f` as a top-level statement, `x`
+    bound nowhere else and `self.f` not assigned in the function, makes `x` a second name of that object: the statement is
+    `Stmt.alias`, later reads of `x` are `Expr.avar` (read THROUGH the field), `x[k] = v` / `del x[k]` are
+    `Stmt.setItemRef/delItemRef`.  `[e for a, b in d.items()]` (one generator, no condition, `a`/`b` bound nowhere else) is
+    `Expr.compItems`; `C.CONST` for a class-level tuple of constants is dumped as that tuple; `C.m(args)` for a static method
+    dumped under `STATIC_METHODS` is a call of that function; `object.__getattribute__(self, n)` is `Expr.objAttr` (the plain
+    attribute with a computed name); `object.__setattr__(self, n, v)` is `Expr.outside` (NOT modelled: it evaluates to an
+    error; the theorems exclude the reserved names); `self.m()` for a method `m` listed with its exact body (`_ensureHtmlAttribute`:
+    it writes the tag's attribute store, not the style object) is a parameter (`Ctx.selfMeth`).
 Everything outside the subset raises `Untranslatable` with file:line — a broken tie, never a skip.  The module is never
 imported or executed.
 """
@@ -74,6 +96,39 @@ CLASSES = [
 # (file, lean name of the list, class, names in this order)
 STATIC_METHODS = [
     ('SpecialAttributes.py', 'special_attributes', 'StyleAttribute', ['camelCaseToDashName', 'styleToDict']),
+]
+
+# subclasses of `list` with fields: (file, lean name of the list, class, methods in DEPENDENCY order, module-level functions
+# dumped after the class (they may construct it and see all the dumped methods), lean name of that list)
+LIST_CLASSES = [
+    ('Tags.py', 'tag_collection', 'TagCollection',
+     ['_hasTag', 'append', 'remove', 'all', '__iadd__', '__isub__', '__init__', '__add__', '__sub__'],
+     ['uniqueTags'], 'tag_collection_funs'),
+]
+# special methods a LIST_CLASSES class must not define (the interpreter gives `self[:]`, `list(self)`, `self.f = v` the meaning
+# they have on a plain list / a plain object)
+LIST_CLASS_FORBIDDEN = ('__getitem__', '__iter__', '__len__', '__contains__', '__getattr__', '__getattribute__', '__setattr__')
+# what the interpreter assumes about the elements a collection holds (PyAst: an element is its uid): (file, class, method,
+# parameters, the exact statements after the docstring)
+ELEMENT_METHODS = [
+    ('Tags.py', 'AdvancedTag', 'getUid', ['self'], ['return self.uid']),
+    ('Tags.py', 'AdvancedTag', '__eq__', ['self', 'other'],
+     ['if type(other) != type(self):\n    return False', 'return self.uid == other.uid']),
+]
+
+# classes with overridden dot access: (file, lean name of the list, class, methods to dump, methods of self taken as
+# parameters with (parameters, exact statements after the docstring), the class constant listing the names with plain access,
+# the dumped static methods (STATIC_METHODS) callable as Class.m(...))
+ATTR_CLASSES = [
+    ('SpecialAttributes.py', 'style_attribute', 'StyleAttribute',
+     ['isEmpty', 'setProperty', '_asStr', '__getattribute__', '__setattr__'],
+     {'_ensureHtmlAttribute': (['self'],
+                               ['tag = self.tag',
+                                "if tag:\n    styleDict = self._styleDict\n    tagAttributes = tag._attributes\n"
+                                "    if not issubclass(tagAttributes.__class__, SpecialAttributesDict):\n        return\n"
+                                "    if not styleDict:\n        tagAttributes._direct_del('style')\n"
+                                "    else:\n        tagAttributes._direct_set('style', self)"])},
+     'RESERVED_ATTRIBUTES', ['camelCaseToDashName']),
 ]
 
 BUILTIN_FUNCS = ('int', 'bool', 'str', 'hasattr', 'issubclass', 'len', 'list')
@@ -264,11 +319,19 @@ def _check_tostr(repo):
 
 
 class _FunTranslator(object):
-    def __init__(self, mod, fn, earlier, prims=None, lean_name=None, static=False):
+    def __init__(self, mod, fn, earlier, prims=None, lean_name=None, static=False, cls=None, acls=None):
         self.mod = mod
         self.fn = fn
         self.earlier = earlier          # names of the module functions defined before this one
         self.prims = prims              # None: a plain function; else the static methods callable as self.m(...)
+        # a class of LIST_CLASSES: {'name', 'methods' (every def of the class), 'callable' (the dumped methods this function
+        # may refer to)}; `prims` not None: `fn` is a method of it, None: a module-level function that constructs it
+        self.cls = cls
+        # a class of ATTR_CLASSES: {'name', 'reserved' (names with plain dot access), 'consts' (class-level constant tuples:
+        # name -> Tuple node), 'statics' (dumped static methods callable as Class.m)}
+        self.acls = acls
+        self.aliases = {}               # local variable -> field of self it is a second name of
+        self.comp_vars = set()          # variables of comprehensions
         self.lean_name = lean_name or (fn.name + '_ast')
         a = fn.args
         if a.vararg or a.kwarg or a.kwonlyargs or getattr(a, 'posonlyargs', []) or a.kw_defaults:
@@ -281,6 +344,7 @@ class _FunTranslator(object):
         self.params = [p.arg for p in a.args]
         self.locals = set(self.params)
         self.imported = {}
+        self.callees = set(id(n.func) for n in ast.walk(fn) if isinstance(n, ast.Call))
         for n in ast.walk(fn):
             if isinstance(n, (ast.FunctionDef, ast.Lambda, ast.ClassDef)) and n is not fn:
                 mod.fail(n, 'nested definition')
@@ -306,6 +370,23 @@ class _FunTranslator(object):
             for n in ast.walk(fn):
                 if isinstance(n, ast.Attribute) and isinstance(n.value, ast.Name) and n.value.id == self.self_name:
                     ok_uses.add(id(n.value))
+                if acls is not None:
+                    # object.__getattribute__(self, n) / object.__setattr__(self, n, v)
+                    if isinstance(n, ast.Call) and self.object_call(n) is not None:
+                        ok_uses.add(id(n.args[0]))
+                if cls is not None:
+                    # the list the object IS: `list.m(self, …)` as a statement, `self[:]`, `list(self)`; and `return self`
+                    if isinstance(n, ast.Expr) and self.base_call(n.value) is not None:
+                        ok_uses.add(id(n.value.args[0]))
+                    if isinstance(n, ast.Subscript) and isinstance(n.value, ast.Name) and isinstance(n.slice, ast.Slice) \
+                            and n.slice.lower is None and n.slice.upper is None and n.slice.step is None:
+                        ok_uses.add(id(n.value))
+                    if isinstance(n, ast.Call) and isinstance(n.func, ast.Name) and n.func.id == 'list' \
+                            and 'list' not in self.locals and 'list' not in mod.rebound and len(n.args) == 1 \
+                            and not n.keywords and isinstance(n.args[0], ast.Name):
+                        ok_uses.add(id(n.args[0]))
+                    if isinstance(n, ast.Return) and isinstance(n.value, ast.Name):
+                        ok_uses.add(id(n.value))
             for n in ast.walk(fn):
                 if isinstance(n, ast.Name) and n.id == self.self_name:
                     if not isinstance(n.ctx, ast.Load) or id(n) not in ok_uses:
@@ -320,9 +401,92 @@ class _FunTranslator(object):
                 self.locals.add(n.name)
         if 'tostr' in self.imported.values():
             _check_tostr(mod.repo)
+        if acls is not None:
+            self.find_aliases()
+            for n in ast.walk(fn):
+                f = self.self_field(n)
+                if f is not None and f not in acls['reserved']:
+                    mod.fail(n, '%s.%s is not in %s: no plain attribute' % (self.self_name, f, acls['reserved_name']))
+        # a variable whose bound method is taken (`hasTag = ret._hasTag`) is named by that value: it must be bound exactly
+        # once (a parameter, or one plain assignment) and never be a loop / handler variable
+        if cls is not None:
+            for n in ast.walk(fn):
+                if self.bound_method(n) is not None:
+                    x = n.value.id
+                    stores = [m for m in ast.walk(fn) if isinstance(m, ast.Name) and m.id == x and not isinstance(m.ctx, ast.Load)]
+                    plain = [m for m in ast.walk(fn) if isinstance(m, ast.Assign) and len(m.targets) == 1
+                             and isinstance(m.targets[0], ast.Name) and m.targets[0].id == x]
+                    ok = (x in self.params and not stores) or \
+                         (x not in self.params and len(stores) == 1 and len(plain) == 1 and plain[0] in fn.body
+                          and plain[0].lineno < n.lineno)
+                    if not ok:
+                        mod.fail(n, 'bound method of %s, which is not bound exactly once at the top of the function' % x)
 
     def fail(self, node, what):
         self.mod.fail(node, what)
+
+    def object_call(self, n):
+        """`object.__getattribute__(self, e)` / `object.__setattr__(self, e, v)` -> the method name; anything else -> None"""
+        f = n.func
+        if self.acls is not None and isinstance(f, ast.Attribute) and isinstance(f.value, ast.Name) and f.value.id == 'object' \
+                and 'object' not in self.locals and 'object' not in self.mod.rebound \
+                and f.attr in ('__getattribute__', '__setattr__') and not n.keywords \
+                and len(n.args) == (2 if f.attr == '__getattribute__' else 3) \
+                and isinstance(n.args[0], ast.Name) and n.args[0].id == self.self_name \
+                and not any(isinstance(a, ast.Starred) for a in n.args):
+            return f.attr
+        return None
+
+    def find_aliases(self):
+        """`x = self.f` at the top level of the body, x bound nowhere else, self.f never assigned: x is a second name of
+        the object in self.f"""
+        fn = self.fn
+        for st in fn.body:
+            if isinstance(st, ast.Assign) and len(st.targets) == 1 and isinstance(st.targets[0], ast.Name) \
+                    and self.self_field(st.value) is not None:
+                x = st.targets[0].id
+                f = self.self_field(st.value)
+                stores = [m for m in ast.walk(fn) if isinstance(m, ast.Name) and m.id == x and not isinstance(m.ctx, ast.Load)]
+                fstores = [m for m in ast.walk(fn) if isinstance(m, ast.Attribute) and not isinstance(m.ctx, ast.Load)
+                           and self.self_field(m) == f]
+                early = [m for m in ast.walk(fn) if isinstance(m, ast.Name) and m.id == x and m.lineno < st.lineno]
+                if len(stores) == 1 and x not in self.params and not fstores and not early:
+                    self.aliases[x] = f
+        # comprehension variables: bound by exactly one comprehension and nowhere else
+        for n in ast.walk(fn):
+            if isinstance(n, ast.ListComp):
+                for g in n.generators:
+                    for t in ast.walk(g.target):
+                        if isinstance(t, ast.Name):
+                            stores = [m for m in ast.walk(fn) if isinstance(m, ast.Name) and m.id == t.id
+                                      and not isinstance(m.ctx, ast.Load)]
+                            inside = [m for m in ast.walk(n) if isinstance(m, ast.Name) and m.id == t.id]
+                            total = [m for m in ast.walk(fn) if isinstance(m, ast.Name) and m.id == t.id]
+                            if len(stores) != 1 or t.id in self.params or len(inside) != len(total):
+                                self.fail(n, 'the comprehension variable %s is used elsewhere in the function' % t.id)
+                            self.comp_vars.add(t.id)
+
+    def base_call(self, v):
+        """`list.m(self, args…)` -> (m, args) for a method of a LIST_CLASSES class; anything else -> None"""
+        if self.cls is None or self.self_name is None or not isinstance(v, ast.Call):
+            return None
+        f = v.func
+        if isinstance(f, ast.Attribute) and isinstance(f.value, ast.Name) and f.value.id == 'list' \
+                and 'list' not in self.locals and 'list' not in self.mod.rebound and v.args \
+                and isinstance(v.args[0], ast.Name) and v.args[0].id == self.self_name and not v.keywords \
+                and not any(isinstance(a, ast.Starred) for a in v.args):
+            return f.attr, v.args[1:]
+        return None
+
+    def bound_method(self, n):
+        """`x.m` as a VALUE, x a local variable and m a def of the class -> m; anything else -> None.  (The callee of a call
+        is not a value: the caller asks before descending.)"""
+        if self.cls is None or not isinstance(n, ast.Attribute) or not isinstance(n.ctx, ast.Load):
+            return None
+        if isinstance(n.value, ast.Name) and n.value.id in self.locals and n.attr in self.cls['methods'] \
+                and id(n) not in self.callees:
+            return n.attr
+        return None
 
     def self_field(self, n):
         """`self.f` -> 'f', anything else -> None"""
@@ -355,6 +519,8 @@ class _FunTranslator(object):
         if isinstance(n, ast.Name):
             if not isinstance(n.ctx, ast.Load):
                 self.fail(n, 'name in a store context')
+            if not module_scope and n.id in self.aliases:
+                return '(.avar %s)' % lean_str(n.id)
             if not module_scope and n.id in self.locals:
                 return '(.var %s)' % lean_str(n.id)
             if n.id in self.imported:
@@ -375,6 +541,44 @@ class _FunTranslator(object):
             self.fail(n, 'name %s is neither local, a module singleton / constant (tuple) nor an exception class' % n.id)
         if isinstance(n, ast.List) and isinstance(n.ctx, ast.Load) and not n.elts:
             return '.newList'
+        if self.acls is not None and isinstance(n, ast.ListComp):
+            g = n.generators[0] if len(n.generators) == 1 else None
+            if g is None or g.ifs or g.is_async or not isinstance(g.target, ast.Tuple) or len(g.target.elts) != 2 \
+                    or not all(isinstance(t, ast.Name) for t in g.target.elts) \
+                    or g.target.elts[0].id == g.target.elts[1].id \
+                    or not (isinstance(g.iter, ast.Call) and isinstance(g.iter.func, ast.Attribute)
+                            and g.iter.func.attr == 'items' and not g.iter.args and not g.iter.keywords):
+                self.fail(n, 'comprehension other than [e for a, b in d.items()]')
+            return '(.compItems %s %s %s %s)' % (lean_str(g.target.elts[0].id), lean_str(g.target.elts[1].id),
+                                                 self.expr(n.elt, module_scope), self.expr(g.iter.func.value, module_scope))
+        if self.acls is not None and isinstance(n, ast.Call) and self.object_call(n) == '__getattribute__':
+            return '(.objAttr %s %s)' % (lean_str(self.self_name), self.expr(n.args[1], module_scope))
+        if self.acls is not None and isinstance(n, ast.Call) and self.object_call(n) == '__setattr__':
+            return '(.outside "object.__setattr__")'
+        if self.acls is not None and isinstance(n, ast.Attribute) and isinstance(n.ctx, ast.Load) \
+                and isinstance(n.value, ast.Name) and n.value.id == self.acls['name'] and n.value.id not in self.locals \
+                and n.attr in self.acls['consts'] and id(n) not in self.callees:
+            return self.expr(self.acls['consts'][n.attr], module_scope=True)
+        if self.acls is not None and isinstance(n, ast.Call) and isinstance(n.func, ast.Attribute) \
+                and isinstance(n.func.value, ast.Name) and n.func.value.id == self.acls['name'] \
+                and n.func.value.id not in self.locals and n.func.attr in self.acls['statics']:
+            if n.keywords or any(isinstance(a, ast.Starred) for a in n.args):
+                self.fail(n, 'keyword / starred arguments')
+            return '(.call %s [%s])' % (lean_str(n.func.attr), ', '.join(self.expr(a, module_scope) for a in n.args))
+        if self.cls is not None and isinstance(n, ast.Call) and isinstance(n.func, ast.Name) and n.func.id == 'set' \
+                and not n.args and not n.keywords and 'set' not in self.locals and 'set' not in self.mod.rebound:
+            return '.newSet'
+        if self.cls is not None and isinstance(n, ast.Call) and isinstance(n.func, ast.Name) \
+                and n.func.id == self.cls['name'] and n.func.id not in self.locals:
+            if n.keywords or any(isinstance(a, ast.Starred) for a in n.args):
+                self.fail(n, 'keyword / starred arguments of the constructor')
+            if '__init__' not in self.cls['callable']:
+                self.fail(n, 'the constructor is used before __init__ in the dependency order of the dump')
+            return '(.construct %s [%s])' % (lean_str(n.func.id), ', '.join(self.expr(a, module_scope) for a in n.args))
+        if self.bound_method(n) is not None:
+            if n.attr not in self.cls['callable']:
+                self.fail(n, 'the method %s is not dumped before this one (dependency order)' % n.attr)
+            return '(.boundMeth %s %s)' % (lean_str(n.value.id), lean_str(n.attr))
         if isinstance(n, ast.Dict) and not n.keys:
             return '.newDict'
         if isinstance(n, ast.BinOp):
@@ -393,6 +597,8 @@ class _FunTranslator(object):
                     return '(.sliceTo %s %s)' % (self.expr(n.value, module_scope), self.expr(sl.upper, module_scope))
                 if sl.lower is not None and sl.upper is None:
                     return '(.sliceFrom %s %s)' % (self.expr(n.value, module_scope), self.expr(sl.lower, module_scope))
+                if sl.lower is None and sl.upper is None and self.cls is not None:
+                    return '(.sliceAll %s)' % self.expr(n.value, module_scope)
                 self.fail(n, 'slice with both or no bounds')
             if isinstance(sl, ast.Tuple):
                 self.fail(n, 'tuple subscript')
@@ -499,6 +705,24 @@ class _FunTranslator(object):
                 return comment, ['%s.fieldCall %s %s %s [%s]' % (
                     pad, lean_str(self.self_name), lean_str(self.self_field(v.func.value)), lean_str(v.func.attr),
                     ', '.join(self.expr(a) for a in v.args))]
+            if self.base_call(v) is not None:
+                m, rest = self.base_call(v)
+                return comment, ['%s.baseCall %s %s [%s]' % (pad, lean_str(self.self_name), lean_str(m),
+                                                            ', '.join(self.expr(a) for a in rest))]
+            if self.cls is not None and isinstance(v, ast.Call) and isinstance(v.func, ast.Attribute) \
+                    and isinstance(v.func.value, ast.Name) and v.func.value.id in self.locals \
+                    and v.func.attr in self.cls['methods']:
+                # a method of the class on a local variable (or `self`): the interpreter dispatches on what the variable
+                # holds (an object of the class: the dumped method; a plain list: the list's own `append` / `remove`)
+                if v.keywords or any(isinstance(a, ast.Starred) for a in v.args):
+                    self.fail(st, 'keyword / starred arguments')
+                if v.func.value.id == self.self_name and v.func.attr not in self.cls['callable']:
+                    self.fail(st, 'the method %s is not dumped before this one (dependency order)' % v.func.attr)
+                return comment, ['%s.varCall %s %s [%s]' % (pad, lean_str(v.func.value.id), lean_str(v.func.attr),
+                                                           ', '.join(self.expr(a) for a in v.args))]
+            if isinstance(v, ast.Call) and isinstance(v.func, ast.Attribute) and isinstance(v.func.value, ast.Name) \
+                    and v.func.value.id in self.aliases:
+                self.fail(st, 'statement method of an aliased field')
             if isinstance(v, ast.Call) and isinstance(v.func, ast.Attribute) and isinstance(v.func.value, ast.Name) \
                     and v.func.value.id in self.locals and v.func.value.id != self.self_name and v.func.attr in MUTATORS:
                 if v.keywords or any(isinstance(a, ast.Starred) for a in v.args):
@@ -510,6 +734,21 @@ class _FunTranslator(object):
             return None                                         # checked in __init__
         if isinstance(st, ast.Pass):
             return comment, ['%s.pass' % pad]
+        if isinstance(st, ast.Assign) and len(st.targets) == 1 and isinstance(st.targets[0], ast.Name) \
+                and st.targets[0].id in self.aliases:
+            return comment, ['%s.alias %s %s %s' % (pad, lean_str(st.targets[0].id), lean_str(self.self_name),
+                                                   lean_str(self.aliases[st.targets[0].id]))]
+        if isinstance(st, ast.Assign) and len(st.targets) == 1 and isinstance(st.targets[0], ast.Subscript) \
+                and isinstance(st.targets[0].value, ast.Name) and st.targets[0].value.id in self.aliases:
+            t = st.targets[0]
+            if isinstance(t.slice, (ast.Slice, ast.Tuple)):
+                self.fail(st, 'slice / tuple assignment')
+            return comment, ['%s.setItemRef %s %s %s' % (pad, lean_str(t.value.id), self.expr(t.slice), self.expr(st.value))]
+        if isinstance(st, ast.Delete) and len(st.targets) == 1 and isinstance(st.targets[0], ast.Subscript) \
+                and isinstance(st.targets[0].value, ast.Name) and st.targets[0].value.id in self.aliases \
+                and not isinstance(st.targets[0].slice, (ast.Slice, ast.Tuple)):
+            t = st.targets[0]
+            return comment, ['%s.delItemRef %s %s' % (pad, lean_str(t.value.id), self.expr(t.slice))]
         if isinstance(st, ast.Assign) and len(st.targets) == 1 and self.self_field(st.targets[0]) is not None:
             return comment, ['%s.setAttr %s %s %s' % (pad, lean_str(self.self_name), lean_str(self.self_field(st.targets[0])),
                                                      self.expr(st.value))]
@@ -717,8 +956,125 @@ def generate_code(repo):
         parts.append('/-- %s: the dumped static methods of class %s -/' % (rel, cls_name))
         parts.append('def %s : List Fun :=\n  [%s]' % (lean_name, ',\n   '.join(names)))
         parts.append('')
+    for rel, lean_name, cls_name, methods, funcs, funcs_lean in LIST_CLASSES:
+        mod = _Module(repo, rel)
+        cls = mod.classes.get(cls_name)
+        if cls is None:
+            raise Untranslatable('%s: no top-level class %s' % (rel, cls_name))
+        if cls.decorator_list or cls.keywords or [ast.unparse(b) for b in cls.bases] != ['list'] or 'list' in mod.rebound:
+            mod.fail(cls, 'class with decorators / keywords / bases other than the builtin list')
+        defs = {}
+        for st in ast.walk(cls):
+            if isinstance(st, ast.FunctionDef):
+                defs.setdefault(st.name, []).append(st)
+            elif isinstance(st, ast.Assign) and st in cls.body:
+                # class-level aliases (`filterAnd = filter`): no dumped method and no special method may be bound that way
+                for t in st.targets:
+                    if not isinstance(t, ast.Name) or t.id in methods or t.id in LIST_CLASS_FORBIDDEN:
+                        mod.fail(st, 'class-level assignment to a dumped / special method name')
+        for bad in LIST_CLASS_FORBIDDEN:
+            if bad in defs:
+                mod.fail(defs[bad][0], 'class %s defines %s' % (cls_name, bad))
+        for (erel, ecls, emeth, eargs, ebody) in ELEMENT_METHODS:
+            _check_method_body(_Module(repo, erel) if erel != rel else mod, ecls, emeth, eargs, ebody)
+        all_methods = set(defs)
+        names = []
+        done = []
+        for m in methods:
+            if len(defs.get(m, [])) != 1 or defs[m][0] not in cls.body:
+                raise Untranslatable('%s: class %s does not define %s exactly once' % (rel, cls_name, m))
+            ln = '%s_%s_ast' % (cls_name, m.strip('_'))
+            info = {'name': cls_name, 'methods': all_methods, 'callable': set(done)}
+            parts.append(_FunTranslator(mod, defs[m][0], [], prims=set(), lean_name=ln, cls=info).translate())
+            parts.append('')
+            names.append(ln)
+            done.append(m)
+        parts.append('/-- %s: the dumped methods of class %s, in dependency order (a method refers to earlier ones only) -/'
+                     % (rel, cls_name))
+        parts.append('def %s : List Fun :=\n  [%s]' % (lean_name, ',\n   '.join(names)))
+        parts.append('')
+        byname = {}
+        for f in mod.functions:
+            byname.setdefault(f.name, []).append(f)
+        fnames = []
+        for w in funcs:
+            if len(byname.get(w, [])) != 1:
+                raise Untranslatable('%s: %s is not defined exactly once at module level' % (rel, w))
+            info = {'name': cls_name, 'methods': all_methods, 'callable': set(done)}
+            parts.append(_FunTranslator(mod, byname[w][0], [], cls=info).translate())
+            parts.append('')
+            fnames.append('%s_ast' % w)
+        parts.append('/-- %s: module-level functions that build a %s -/' % (rel, cls_name))
+        parts.append('def %s : List Fun :=\n  [%s]' % (funcs_lean, ',\n   '.join(fnames)))
+        parts.append('')
+    for rel, lean_name, cls_name, methods, prims, reserved_name, statics in ATTR_CLASSES:
+        mod = _Module(repo, rel)
+        cls = mod.classes.get(cls_name)
+        if cls is None:
+            raise Untranslatable('%s: no top-level class %s' % (rel, cls_name))
+        if cls.decorator_list or cls.keywords or [ast.unparse(b) for b in cls.bases] != ['object']:
+            mod.fail(cls, 'class with decorators / keywords / base classes other than object')
+        defs = {}
+        consts = {}
+        for st in ast.walk(cls):
+            if isinstance(st, ast.FunctionDef):
+                defs.setdefault(st.name, []).append(st)
+        assigned = {}
+        for st in cls.body:
+            if isinstance(st, ast.Assign):
+                for t in st.targets:
+                    for nm in ast.walk(t):
+                        if isinstance(nm, ast.Name):
+                            assigned[nm.id] = assigned.get(nm.id, 0) + 1
+                if len(st.targets) == 1 and isinstance(st.targets[0], ast.Name) and isinstance(st.value, ast.Tuple) \
+                        and all(isinstance(e, ast.Constant) and (e.value is None or isinstance(e.value, (str, int, bool)))
+                                for e in st.value.elts):
+                    consts[st.targets[0].id] = st.value
+        consts = dict((k, v) for k, v in consts.items() if assigned.get(k) == 1 and k not in defs)
+        if reserved_name not in consts or not all(isinstance(e.value, str) for e in consts[reserved_name].elts):
+            mod.fail(cls, 'class %s has no constant tuple of names %s' % (cls_name, reserved_name))
+        dumped_statics = [w for (r2, _, c2, ws) in STATIC_METHODS if r2 == rel and c2 == cls_name for w in ws]
+        for w in statics:
+            if w not in dumped_statics:
+                raise Untranslatable('%s: the static method %s of %s is not dumped' % (rel, w, cls_name))
+        for pname, (pargs, pbody) in sorted(prims.items()):
+            _check_method_body(mod, cls_name, pname, pargs, pbody)
+        info = {'name': cls_name, 'reserved': [e.value for e in consts[reserved_name].elts], 'reserved_name': reserved_name,
+                'consts': consts, 'statics': set(statics)}
+        names = []
+        for m in methods:
+            if len(defs.get(m, [])) != 1 or defs[m][0] not in cls.body or m in assigned:
+                raise Untranslatable('%s: class %s does not define %s exactly once' % (rel, cls_name, m))
+            ln = '%s_%s_ast' % (cls_name, m.strip('_'))
+            parts.append(_FunTranslator(mod, defs[m][0], [], prims=set(prims), lean_name=ln, acls=info).translate())
+            parts.append('')
+            names.append(ln)
+        parts.append('/-- %s: the dumped methods of class %s -/' % (rel, cls_name))
+        parts.append('def %s : List Fun :=\n  [%s]' % (lean_name, ',\n   '.join(names)))
+        parts.append('')
     parts.append('end AHP.Gen.Code')
     return '\n'.join(parts) + '\n'
+
+
+def _check_method_body(mod, cls_name, name, args, body):
+    """A method the interpreter takes as known (an element IS its uid): it must be defined once, undecorated, with exactly
+    the expected parameters and statements."""
+    cls = mod.classes.get(cls_name)
+    if cls is None:
+        raise Untranslatable('%s: no top-level class %s' % (mod.rel, cls_name))
+    found = [st for st in ast.walk(cls) if isinstance(st, ast.FunctionDef) and st.name == name]
+    assigned = [st for st in cls.body if isinstance(st, ast.Assign)
+                and any(isinstance(t, ast.Name) and t.id == name for t in st.targets)]
+    if len(found) != 1 or found[0] not in cls.body or assigned:
+        raise Untranslatable('%s: class %s does not define %s exactly once' % (mod.rel, cls_name, name))
+    fn = found[0]
+    a = fn.args
+    if fn.decorator_list or a.vararg or a.kwarg or a.kwonlyargs or a.defaults or getattr(a, 'posonlyargs', []) \
+            or [p.arg for p in a.args] != list(args):
+        mod.fail(fn, '%s.%s is not the expected plain method (%s)' % (cls_name, name, ', '.join(args)))
+    stmts = [s for s in fn.body if not (isinstance(s, ast.Expr) and isinstance(s.value, ast.Constant))]
+    if [ast.unparse(s) for s in stmts] != list(body):
+        mod.fail(fn, 'the body of %s.%s is not the expected one (%s)' % (cls_name, name, '; '.join(body)))
 
 
 def _check_static_prim(mod, fn, cls_name, name, args, body, imports):
